@@ -13,7 +13,8 @@ EXTENDS WireOps
 CONSTANTS Growth,     \* nesting steps on top of the first primitive
           Mode,       \* "values": case = [ty, val, hdr]; "bytes": case = [ty, bits, hdr]
           MaxBits,    \* "bytes" mode: bit strings of length 0, 8, .., MaxBits
-          Wide        \* TRUE: also integers of 9..23 bits that start at every bit offset 1..7 of a byte
+          Wide,       \* TRUE: also integers of 9..23 bits that start at every bit offset 1..7 of a byte
+          Lean        \* TRUE: the lean value sets (two values per integer, empty / full arrays) - for deep nesting
 
 VARIABLES ph, case, out
 vars == <<ph, case, out>>
@@ -57,15 +58,21 @@ DecOut(c) == DecTop(c.ty, c.bits, c.hdr)
 
 Init == ph = 0 /\ case = [ty |-> Bool] /\ out = 0
 Pick == ph = 0 /\ \E t \in Prims : case' = [ty |-> t] /\ out' = 0 /\ ph' = 1
+\* the outermost of three nesting steps is taken from a smaller set (the full product has ~10^5 types)
+TopWraps(t) ==
+     (IF Elem(t) THEN { Fix(t, 2), Var(t, 2) } ELSE {})
+  \cup { St(<<U(5, "t"), t>>), St(<<t, Bool>>) }
+  \cup (IF NonVoid(t) THEN { Un(<<Bool, t>>) } ELSE {})
+  \cup (IF t.k \in {"st", "un"} THEN { Del(t, MaxOf(BLS(t)) + 16) } ELSE {})
 Grow == /\ ph >= 1 /\ ph <= Growth
-        /\ \E t \in Wraps(case.ty) : case' = [ty |-> t] /\ out' = 0
+        /\ \E t \in (IF Lean /\ ph = 3 THEN TopWraps(case.ty) ELSE Wraps(case.ty)) : case' = [ty |-> t] /\ out' = 0
         /\ ph' = ph + 1
 \* complete the case: a value (Mode "values") or a bit string (Mode "bytes")
 Complete ==
   /\ ph >= 2 /\ ph <= Growth + 1 /\ Top(case.ty)
   /\ \E hdr \in (IF case.ty.k = "del" THEN BOOLEAN ELSE {FALSE}) :
        IF Mode = "values"
-       THEN \E v \in Vals(case.ty, TRUE) :
+       THEN \E v \in (IF Lean THEN Vals2(case.ty) ELSE Vals(case.ty, TRUE)) :
               /\ case' = [ty |-> case.ty, val |-> v, hdr |-> hdr]
               /\ out' = EncOut(case')
        ELSE \E n \in { 8 * j : j \in 0..(MaxBits \div 8) } : \E bits \in [1..n -> {0, 1}] :
